@@ -321,7 +321,18 @@ def main():
         elif searched:
             violations.append({"kind": "failing-input", **searched})
         else:
-            violations.append({"kind": "no-failing-input-found", "broken": broken})
+            # a failed real-code oracle check IS a concrete failing input: the property's statement was evaluated on the implementation
+            # alone against an independent expectation (no model in the loop); re-evaluated here before it is reported
+            oracle_hit = None
+            for m in mismatches:
+                if m.get("suite", "").startswith("oracle-") and isinstance(m.get("input"), dict) and canon(m["input"]) not in open_inputs:
+                    oracle_hit = m
+                    break
+            if oracle_hit is not None:
+                violations.append({"kind": "failing-input", "input": oracle_hit["input"], "observed": oracle_hit.get("impl"), "expected": oracle_hit.get("model"),
+                                   "check": oracle_hit.get("oracle"), "found_by": oracle_hit["suite"]})
+            else:
+                violations.append({"kind": "no-failing-input-found", "broken": broken})
 
     # -------- 7 evidence / replay / exit
     os.makedirs(os.path.join(VERIF, "evidence"), exist_ok=True)
